@@ -260,4 +260,17 @@ class C04(Prop):
             acc.inconclusive_because("postcondition on sign_packet_with_crc_key was never evaluated")
 
 
+    def thread_pairs(self, ctx):
+        from ..monitors.threadops import expect
+
+        sign = self.tools.sign_packet_with_crc_key
+        pa = frames.build("login", SESSION, TS, DEV, KEY, {})[:-4].hex()
+        pb = frames.build("set_position", SESSION, TS, DEV, KEY, {"position": 57})[:-4].hex()
+        want = lambda p: p + crc.sign(unhexlify(p)).hex()
+        short_a, short_b = "a5", "00ff10"
+        return [("sign(frame A) || sign(frame B)", lambda: sign(pa), lambda: sign(pb), expect(want(pa)), expect(want(pb))),
+                ("sign(p) || sign(p)", lambda: sign(pa), lambda: sign(pa), expect(want(pa)), expect(want(pa))),
+                ("sign(short) || sign(short)", lambda: sign(short_a), lambda: sign(short_b), expect(want(short_a)), expect(want(short_b)))]
+
+
 PROP = C04()
